@@ -936,18 +936,9 @@ N3_FORM = {
 
 
 def matchers():
-    """Open: N3.  (N1, N2, F23 were fixed: 1948d14, f88f509, d7ea67c.)"""
-
-    def n3(f):
-        # pre-grouped `control: {"jr:count": <expression>}` of a repeat rewritten to ${<name>_count} in the caller's dict
-        if f.kind != "same-object" or f.extra.get("diff") != ["class"]:
-            return False
-        b = f.extra.get("b") or []
-        muts = f.extra.get("beyond_cleaning") or []
-        return (len(b) > 1 and b[0] == "pyxform" and "_count}" in str(b[1]) and "There is no survey element with this name" in str(b[1])
-                and bool(muts) and all("['control']" in m and "jr:count" in m and "_count}" in m for m in muts))
-
-    return {"N3-nested-control-jr-count-rewritten-in-input": n3}
+    """No open finding of C14 (fixed: N1 1948d14, N2 f88f509, F23 d7ea67c, N3 fec1934).  The directed N3 form stays
+    in the same-object stream as a regression case."""
+    return {}
 
 
 def timed(ctx, name, t0):
@@ -966,7 +957,7 @@ def explore(ctx, factor, bs):
     old_tmp = tempfile.tempdir
     tempfile.tempdir = str(private_tmp)
     try:
-        n = ctx.pick(72, 240) * factor
+        n = ctx.pick(76, 240) * factor
         cases = c14_gen.batch(ctx.rng, n, big=not ctx.quick())
         ref = phase_seeds(ctx, wd, cases, ctx.pick(8, 64), ctx.pick(8, 32))
         t0 = timed(ctx, "seeds", t0)
